@@ -178,6 +178,9 @@ def gamma(c, a, b):
         return a
     if isinstance(c, tuple) and c and c[0] == "not":
         return gamma(c[1], b, a)     # canonical form: the condition is never a negation (boolean, so NaN-safe)
+    if isinstance(c, tuple) and c and c[0] == "g":
+        # canonical form: the condition is never itself a conditional: (c1 ? p : q) ? a : b = c1 ? (p ? a : b) : (q ? a : b)
+        return gamma(c[1], gamma(c[2], a, b), gamma(c[3], a, b))
     if isinstance(a, Obj) and isinstance(b, Obj) and a.type == b.type and a.f.keys() == b.f.keys():
         return Obj(a.type, {k: gamma(c, a.f[k], b.f[k]) for k in a.f})
     if isinstance(a, Arr) and isinstance(b, Arr) and len(a.items) == len(b.items):
@@ -1162,6 +1165,12 @@ class Evaluator:
                 return a & b
             if op == "|":
                 return a | b
+        if _int_choice(a) and _int_choice(b):
+            # integer arithmetic distributes over a conditional of concrete integers (an index or a precision selected by
+            # an earlier comparison): the result is again a conditional of concrete integers
+            if isinstance(a, tuple):
+                return gamma(a[1], self.arith(op, a[2], b, t), self.arith(op, a[3], b, t))
+            return gamma(b[1], self.arith(op, a, b[2], t), self.arith(op, a, b[3], t))
         if t is not None and is_int_type(t) or _is_intterm(a) or _is_intterm(b):
             return ("iop", op, a, b)
         if isinstance(a, int):
@@ -1399,6 +1408,8 @@ class Evaluator:
             return items[0]
         if is_float_type(t) and not items:
             return ZERO
+        if not items and re.match(r"std::(integer_sequence|index_sequence|integral_constant|true_type|false_type|in_place_t|nullopt_t|monostate|tuple<>)\b", t):
+            return Obj(t, {})     # an empty tag object (its information is in its type; the pack it expands is already expanded)
         raise Inconclusive("initialiser list for " + t)
 
     def e_stdil(self, e, frame):
@@ -1460,10 +1471,47 @@ class Evaluator:
             if not isinstance(o, LV):
                 o = self.new_loc(o, "tmpobj")
             this_lv = o
+        if this_lv is not None and callee.get("virtual") and not e.get("qual"):
+            callee = self.final_overrider(callee, this_lv)
         a = self.eval_args(callee, e["a"], frame)
         if callee["id"] != frame["f"].get("id"):
             self.trace_calls.append((frame["f"].get("id"), callee["id"]))
         return self._invoke(callee, this_lv, a)
+
+    def final_overrider(self, callee, this_lv):
+        """Dynamic dispatch of a virtual call: the final overrider of `callee` in the class of the object `this_lv`
+        refers to (objects carry their most-derived class).  Falls back to the static callee."""
+        try:
+            obj = self.load(this_lv)
+        except Inconclusive:
+            return callee
+        dyn = getattr(obj, "type", None)
+        if not isinstance(obj, Obj) or dyn is None or dyn == self.F.T(callee.get("parent", -1)) or dyn not in self.F.records:
+            return callee
+
+        def overrides_closure(f, seen=None):
+            seen = seen if seen is not None else set()
+            for o in f.get("overrides", []):
+                if o not in seen:
+                    seen.add(o)
+                    g = self.F.fns.get(o) if isinstance(self.F.fns, dict) else None
+                    if g is not None:
+                        overrides_closure(g, seen)
+            return seen
+
+        def search(cls):
+            r = self.F.records.get(cls)
+            if r is None:
+                return None
+            for f in self.F.methods(cls, callee["sname"]):
+                if f["id"] == callee["id"] or callee["id"] in overrides_closure(f):
+                    return f
+            for b in r["bases"]:
+                g = search(self.F.T(b["t"]))
+                if g is not None:
+                    return g
+            return None
+        return search(dyn) or callee
 
     def _is_pointer_type(self, e):
         t = self.F.T(e.get("t", -1))
@@ -2051,6 +2099,15 @@ _SCOPE_END = _Sentinel("SCOPE_END")
 
 # ------------------------------------------------------------------------------------------------
 # term utilities
+
+def _int_choice(x):
+    """A concrete integer, or a conditional whose alternatives are."""
+    if isinstance(x, bool):
+        return False
+    if isinstance(x, int):
+        return True
+    return isinstance(x, tuple) and len(x) == 4 and x[0] == "g" and _int_choice(x[2]) and _int_choice(x[3])
+
 
 def assume(t, cond, truth):
     """Simplify a term under the assumption that boolean term `cond` has the given truth value."""
